@@ -50,6 +50,7 @@ type thread struct {
 	blockedOn func() bool
 	blockDesc string
 	daemon    bool
+	entry     string
 }
 
 type mutexState struct {
@@ -117,6 +118,7 @@ type run struct {
 	nchan   int
 	timers  []*timerv
 	now     string
+	nowC    int64
 	wallOff string
 	ticks   int
 
@@ -134,6 +136,7 @@ type run struct {
 	bounds       map[string]interval
 	tickBound    bool
 	traceCalls   bool
+	daemons      []string
 	atomicDepth  int
 }
 
@@ -294,6 +297,17 @@ func (r *run) newThread(name string, env bool) *thread {
 
 func (r *run) spawn(fr *frame, fn value, args []value, env bool, where string) *thread {
 	th := r.newThread(fmt.Sprintf("T%d@%s", len(r.threads), shortPos(where)), env)
+	switch f := fn.(type) {
+	case *ssa.Function:
+		th.entry = f.String()
+	case *closure:
+		th.entry = f.Fn.String()
+	}
+	for _, d := range r.daemons {
+		if strings.Contains(th.entry, d) {
+			th.env = true
+		}
+	}
 	if len(r.threads) > r.e.opts.maxThreads {
 		r.inconclusive("thread bound exceeded")
 		panic(pathEnd{"threads"})
@@ -790,7 +804,15 @@ func (r *run) selectStmt(fr *frame, instr *ssa.Select) value {
 // ---------------------------------------------------------------------------
 // time
 
-func (r *run) clockRead() *sym {
+func (r *run) clockRead() value {
+	if r.h.concreteClock {
+		r.nowC += 1000
+		return r.nowC
+	}
+	return r.clockReadSym()
+}
+
+func (r *run) clockReadSym() *sym {
 	if r.h.frozenClock && r.now != "" {
 		return &sym{r.now, SInt}
 	}
@@ -807,6 +829,9 @@ func (r *run) clockRead() *sym {
 }
 
 func (r *run) wallOffset() string {
+	if r.h.concreteClock {
+		return "1700000000000000000"
+	}
 	if r.wallOff == "" {
 		w := r.fresh("walloff", "wall-mono offset", SInt)
 		r.assertPC(sx(">=", w.t, "0"))
@@ -819,12 +844,24 @@ func (r *run) wallOffset() string {
 func (r *run) newTimer(dur value, label string) *timerv {
 	now := r.clockRead()
 	tm := &timerv{id: len(r.timers), label: fmt.Sprintf("timer%d(%s)", len(r.timers), label)}
-	tm.deadline = sx("+", now.t, intTerm(dur))
+	if nc, ok := now.(int64); ok {
+		if dc, ok := dur.(int64); ok {
+			tm.deadline = smtInt(nc + dc)
+		} else {
+			tm.deadline = sx("+", smtInt(nc), intTerm(dur))
+		}
+	} else {
+		tm.deadline = sx("+", intTerm(now), intTerm(dur))
+	}
 	r.timers = append(r.timers, tm)
 	return tm
 }
 
 func (r *run) fireTimer(tm *timerv) {
+	if r.h.concreteClock {
+		r.fireTimerConcrete(tm)
+		return
+	}
 	// time has reached the deadline
 	c := r.fresh("clk", "clock@"+tm.label, SInt)
 	if r.now != "" {
@@ -847,6 +884,37 @@ func (r *run) fireTimer(tm *timerv) {
 	if tm.ch != nil {
 		if len(tm.ch.buf) < tm.ch.cap || firstLive(&tm.ch.recvq) != nil {
 			r.trySend(tm.ch, r.timeValue(&sym{sx("+", c.t, r.wallOffset()), SInt}))
+		}
+	}
+	if tm.fn != nil {
+		tm.fn(r)
+	}
+}
+
+func (r *run) fireTimerConcrete(tm *timerv) {
+	d, ok := parseSmtInt(tm.deadline)
+	if !ok {
+		panic(unsupported{"symbolic timer deadline under the concrete clock: " + tm.deadline})
+	}
+	if d > r.nowC {
+		r.nowC = d
+	}
+	r.nowC += 1000
+	r.ticks++
+	if tm.period != "" {
+		tm.ticks++
+		p, _ := parseSmtInt(tm.period)
+		tm.deadline = smtInt(d + p)
+		if tm.ticks >= r.h.maxTicks {
+			tm.stopped = true
+			r.tickBound = true
+		}
+	} else {
+		tm.fired = true
+	}
+	if tm.ch != nil {
+		if len(tm.ch.buf) < tm.ch.cap || firstLive(&tm.ch.recvq) != nil {
+			r.trySend(tm.ch, r.timeValue(r.nowC+1700000000000000000))
 		}
 	}
 	if tm.fn != nil {
